@@ -244,10 +244,18 @@ class H:
         if self.mode == 'sym':
             self.records.append(dict(key=key, kind='concrete', path=self.path, expect='true', ok=ok,
                                      verdict='true' if ok else 'false', member='concrete', time=0.0,
-                                     stage='concrete', detail=detail, env={} if not ok else None))
+                                     stage='concrete', detail=detail, env=self.path_env() if not ok else None))
         elif not ok:
             self.failed_keys.append((key, 1.0))
         return ok
+
+    def path_env(self):
+        """A concrete point on the CURRENT path (so that the replay takes the same branches), {} = nominal values."""
+        try:
+            env = self.ex.witness_env() if self.ex is not None else None
+        except Exception:   # noqa
+            env = None
+        return {k: str(x) for k, x in env.items()} if env else {}
 
     def sample(self, obj):
         if len(self.samples) < 3 and self.path == 0:
@@ -316,6 +324,7 @@ def run_config_sym(name, fn, kw, tier, seed, opts):
         tb = traceback.extract_tb(e.__traceback__)
         res['error_in_repo'] = any(fr.filename.startswith(REPO) for fr in tb)
         res['traceback'] = ''.join(traceback.format_exception(type(e), e, e.__traceback__))[-3000:]
+        res['error_env'] = h.path_env()      # a point on the path that raised
     if res['status'] == 'ok' and ex.stats.get('paths', 0) == 0:
         res['status'] = 'error'
         res['error'] = 'no feasible path: the assumptions are unsatisfiable or every path was abandoned'
@@ -578,13 +587,13 @@ def main(prop, module, build_configs, meta):
         if r['status'] in ('timeout', 'crashed'):
             inconclusive.append(dict(configuration=c['name'], reason=r['status']))
         if r['status'] == 'error':
-            cand.append(dict(cfg=c, key='exception:' + r.get('error_type', '?'), env={}, kind='exception', res=r))
+            cand.append(dict(cfg=c, key='exception:' + r.get('error_type', '?'), env=r.get('error_env') or {}, kind='exception', res=r))
         seen_sat = set()
         for rec in r.get('records', []):
             if rec['kind'] == 'concrete':
                 n_concrete += 1
                 if not rec['ok']:
-                    cand.append(dict(cfg=c, key=rec['key'], env={}, kind='concrete', res=r))
+                    cand.append(dict(cfg=c, key=rec['key'], env=rec.get('env') or {}, kind='concrete', res=r))
                 continue
             n_obl += 1
             members[rec.get('member')] = members.get(rec.get('member'), 0) + 1
@@ -664,6 +673,9 @@ def main(prop, module, build_configs, meta):
                     c['name'], cd['res'].get('error'), cd['res'].get('traceback', '')))
             else:
                 harness_errors.append('NONREPRODUCING counterexample %s/%s (%s)' % (c['name'], cd['key'], rr.get('status')))
+                if os.environ.get('VERIF_DEBUG_DIR'):
+                    json.dump(dict(property=prop, module=module, config=c['name'], key=cd['key'], env=cd['env'], tier=tier, seed=seed),
+                              open(os.path.join(os.environ['VERIF_DEBUG_DIR'], 'nonrepro-%s-%d.json' % (prop, len(harness_errors))), 'w'), indent=1)
 
     # ---- second-opinion sample with cvc5 -----------------------------------------------------------
     xc = dict(checked=0, agree=0, cvc5_unknown=0, disagree=0, skipped_too_large=0)
